@@ -73,6 +73,13 @@ def run(ck: Check) -> None:
             # between two places, so signing it touches the signature map only
             payload = {"type": "key_mgr", "delegations": {}, "notes": [], "more": {"inner": {}, "list": [{}, []]}, "version": 1}
             env = gen.envelope(payload)
+        if i % 6 == 5:
+            # a payload that has members called "signatures" / "signed" of its own, at depth, holding what an older format filed there (bare hex strings):
+            # only the *top-level* envelope structure means anything; what is loaded is what was written, at every depth
+            payload = {"mirror": {"signatures": {"k1": "ab" * 64, gen.key(1).hex: "cd" * 64}, "signed": {"x": 1}}, "list": [{"signatures": {"z": "ef" * 64}}], "signatures": {"inner": "01" * 64}}
+            env = gen.envelope(payload)
+            env["signatures"]["legacy"] = "ab" * 64
+            gen.sign_env(env, ks[:1], False)
         if i % 6 == 4 and env["signatures"]:
             # entries filed under other spellings of a key id, and junk, next to the real ones (C01: they never count) — persisting keeps them exactly as filed
             k0 = next(iter(env["signatures"]))
